@@ -136,7 +136,7 @@ class Ctor(Stream):
             reqtype = rng.choice([1, 1, 2, 3, 4])
             dnn = rng.choice(["internet", "internet", "ims", "a.b", "mnc093.mcc208.gprs", ""]) if self.dev else rng.choice(["internet", "internet", "ims", "x", ""])
             # slice differentiators that look reserved are legal values too (000000, ffffff; ffffff means "no SD" only in NGAP)
-            sst, sd = rng.choice([1, 1, 2, 255, 0]), rng.choice([rng.bytes(3), rng.bytes(3), bytes(3), b"\xff\xff\xff", b"\x00\x00\x01", b"\x01\x00\x00"])
+            sst, sd = rng.choice([1, 1, 2, 255, 0]), [rng.bytes(3), bytes(3), rng.bytes(3), b"\xff\xff\xff", b"\x00\x00\x01", b"\x01\x00\x00"][i % 6]
             for outer, innm, with_rt in (("GetUlNasTransport_PduSessionEstablishmentRequest", "GetPduSessionEstablishmentRequest", True),
                                          ("GetUlNasTransport_PduSessionModificationRequest", "GetPduSessionModificationRequest", True),
                                          ("GetUlNasTransport_PduSessionReleaseComplete", "GetPduSessionReleaseComplete", True),
@@ -147,7 +147,7 @@ class Ctor(Stream):
                 if with_rt:
                     a.update(reqtype=reqtype, dnn=dnn)
                     opt.append(fv(0x8, 0, [0x80 | reqtype]))
-                    if rng.chance(3, 4):
+                    if i % 6 in (1, 3) or rng.chance(3, 4):
                         a.update(sst=sst, sd=sd.hex())
                         opt.append(fv(0x22, 4, bytes([sst]) + sd))
                     if dnn != "":
